@@ -7,6 +7,26 @@ import PromProofs.HistChunkRT
 namespace Prom.HistChunk
 open Prom.Bits Prom.Hist
 
+/-- a span list that fits the layout encoding, over strictly increasing bucket indices inside ±2^40 -/
+def LayoutBound (S : List Span) : Prop :=
+  SpanListEnc S ∧ (∀ i ∈ idxs S, -(2 ^ 40 : Int) < i ∧ i < 2 ^ 40) ∧ (idxs S).Pairwise (· < ·)
+
+theorem LayoutBound.nil : LayoutBound [] :=
+  ⟨⟨by simp, by simp⟩, by simp [idxs, idxsFrom], by simp [idxs, idxsFrom]⟩
+
+theorem LayoutBound.of_src {cS hS S : List Span} (hc : LayoutBound cS) (hh : LayoutBound hS) (src : SpanSrc cS hS S) :
+    LayoutBound S := by
+  rcases src with rfl | rfl | ⟨hlp, hi⟩
+  · exact hc
+  · exact hh
+  · have hb : ∀ i ∈ idxs S, -(2 ^ 40 : Int) < i ∧ i < 2 ^ 40 := by
+      intro i hi'; rw [hi] at hi'
+      rcases (mem_mergeU_iff _ _ i).1 hi' with h | h
+      · exact hc.2.1 i h
+      · exact hh.2.1 i h
+    have hs : (idxs S).Pairwise (· < ·) := by rw [hi]; exact mergeU_sorted _ _ hc.2.2 hh.2.2
+    exact ⟨spanListEnc_of_lenPos S hlp hs hb, hb, hs⟩
+
 /-- an appended integer histogram far inside the int64 range -/
 structure SmallH (th : Int × Hist) : Prop where
   t : Sm th.1
@@ -16,6 +36,7 @@ structure SmallH (th : Int × Hist) : Prop where
   zcnt : th.2.zcount < 2 ^ 61
   zt : th.2.zt < 2 ^ 64
   schema : I64 th.2.schema ∧ th.2.schema ≠ customSchema
+  spans : LayoutBound th.2.pSpans ∧ LayoutBound th.2.nSpans
   pAbs : ∀ v ∈ prefixSums th.2.pB, 0 ≤ v ∧ v < 2 ^ 60
   nAbs : ∀ v ∈ prefixSums th.2.nB, 0 ≤ v ∧ v < 2 ^ 60
 
@@ -233,5 +254,134 @@ theorem series_bytes_roundtrip (ops : List ((Int × Hist) × Bool)) (s : Series)
     exact hsm q hq
   obtain ⟨s0, ss, ok⟩ := chunkOk_of_inv c g ci hsmall hne (by omega) (layoutOk_of_inv c g ci hsmall hne hsp)
   exact decodeChunk_encodeChunk c s0 ss ok
+
+end Prom.HistChunk
+
+namespace Prom.HistChunk
+open Prom.Bits Prom.Hist
+
+/-- which chunks a series holds after one `memSeries.appendHistogram`, as far as layouts are concerned -/
+theorem Series.append_layouts (s : Series) (gs : List (List (Int × Hist))) (inv : SInv s gs) (cut : Bool) (t : Int)
+    (h : Hist) (hwf : WFs h) (s' : Series) (h' : Hist) (o : Outcome) (hr : s.append cut t h = .ok (s', h', o)) :
+    ∀ c' ∈ s'.cur.toList ++ s'.done, c' ∈ s.cur.toList ++ s.done ∨ FreshSpans h c' ∨
+      ∃ c ∈ s.cur.toList ++ s.done, ∃ g, CInv c g ∧ SpanSrc c.pSpans h.pSpans c'.pSpans ∧
+        SpanSrc c.nSpans h.nSpans c'.nSpans := by
+  unfold Series.append at hr
+  have fresh : ∀ (prev : Option Chunk) (r : AppRes), appendHist prev (Chunk.empty h.float) t h = .ok r →
+      FreshSpans h r.chunk := by
+    intro prev r hr1
+    obtain ⟨_, _, _, k4⟩ := appendHist_step' prev _ [] (CInv.empty h.float) t h hwf rfl r hr1 (fun hx => absurd rfl hx)
+    rcases k4 with ⟨s1, s2⟩ | f
+    · -- the empty chunk has no spans: a source equal to them is the staleness/empty case, else the histogram's
+      have e1 : (Chunk.empty h.float).pSpans = [] := rfl
+      have e2 : (Chunk.empty h.float).nSpans = [] := rfl
+      obtain ⟨_, hdr, rc⟩ := appendHist_empty prev _ rfl t h r hr1
+      rw [rc]; exact freshSpans_appendRaw _ rfl t h
+    · exact f
+  cases hc : s.cur with
+  | none =>
+    simp only [hc] at hr
+    obtain ⟨r, hr1, hr2⟩ := bind_ok _ _ _ hr
+    simp [pure, Except.pure] at hr2
+    obtain ⟨rfl, rfl, rfl⟩ := hr2
+    intro c' hc'
+    simp only [Option.toList_some, List.singleton_append, List.mem_cons, Option.toList_none, List.nil_append] at hc' ⊢
+    rcases hc' with rfl | hc'
+    · exact Or.inr (Or.inl (fresh none r hr1))
+    · exact Or.inl hc'
+  | some c =>
+    simp only [hc] at hr
+    simp only [SInv, hc, Option.toList_some, List.singleton_append] at inv
+    cases gs with
+    | nil => exact inv.elim
+    | cons g gs =>
+      by_cases hcut : (cut || c.float != h.float) = true
+      · rw [if_pos (by simpa using hcut)] at hr
+        obtain ⟨r, hr1, hr2⟩ := bind_ok _ _ _ hr
+        simp [pure, Except.pure] at hr2
+        obtain ⟨rfl, rfl, rfl⟩ := hr2
+        intro c' hc'
+        simp only [Option.toList_some, List.singleton_append, List.mem_cons] at hc' ⊢
+        rcases hc' with rfl | rfl | hc'
+        · exact Or.inr (Or.inl (fresh (some c) r hr1))
+        · exact Or.inl (Or.inl rfl)
+        · exact Or.inl (Or.inr hc')
+      · rw [if_neg (by simpa using hcut)] at hr
+        have hfl : h.float = c.float := by
+          simp only [Bool.or_eq_true, bne_iff_ne, ne_eq, not_or, Bool.not_eq_true, Decidable.not_not] at hcut
+          exact hcut.2.symm
+        obtain ⟨r, hr1, hr2⟩ := bind_ok _ _ _ hr
+        obtain ⟨_, _, _, k4⟩ := appendHist_step' none c g inv.1 t h hwf hfl r hr1 (fun _ => rfl)
+        have hnew : FreshSpans h r.chunk ∨ ∃ c0 ∈ c :: s.done, ∃ g0, CInv c0 g0 ∧
+            SpanSrc c0.pSpans h.pSpans r.chunk.pSpans ∧ SpanSrc c0.nSpans h.nSpans r.chunk.nSpans := by
+          rcases k4 with sp | f
+          · exact Or.inr ⟨c, by simp, g, inv.1, sp.1, sp.2⟩
+          · exact Or.inl f
+        intro c' hc'
+        simp only [Option.toList_some, List.singleton_append] at ⊢
+        cases ho : r.out with
+        | newChunk =>
+          simp [ho, pure, Except.pure] at hr2
+          obtain ⟨rfl, rfl, rfl⟩ := hr2
+          simp only [Option.toList_some, List.singleton_append, List.mem_cons] at hc' ⊢
+          rcases hc' with rfl | rfl | hc'
+          · exact Or.inr (by simpa using hnew)
+          · exact Or.inl (Or.inl rfl)
+          · exact Or.inl (Or.inr hc')
+        | same =>
+          simp [ho, pure, Except.pure] at hr2
+          obtain ⟨rfl, rfl, rfl⟩ := hr2
+          simp only [Option.toList_some, List.singleton_append, List.mem_cons] at hc' ⊢
+          rcases hc' with rfl | hc'
+          · exact Or.inr (by simpa using hnew)
+          · exact Or.inl (Or.inr hc')
+        | recoded =>
+          simp [ho, pure, Except.pure] at hr2
+          obtain ⟨rfl, rfl, rfl⟩ := hr2
+          simp only [Option.toList_some, List.singleton_append, List.mem_cons] at hc' ⊢
+          rcases hc' with rfl | hc'
+          · exact Or.inr (by simpa using hnew)
+          · exact Or.inl (Or.inr hc')
+
+/-- every chunk layout of a series built from histograms with bounded layouts is bounded -/
+theorem runSeries_layouts : ∀ (ops : List ((Int × Hist) × Bool)) (s0 : Series) (gs : List (List (Int × Hist))),
+    SInv s0 gs → (∀ c ∈ s0.cur.toList ++ s0.done, LayoutBound c.pSpans ∧ LayoutBound c.nSpans) →
+    (∀ p ∈ ops, WFs p.1.2 ∧ LayoutBound p.1.2.pSpans ∧ LayoutBound p.1.2.nSpans) → ∀ s, runSeries ops s0 = .ok s →
+    ∀ c ∈ s.cur.toList ++ s.done, LayoutBound c.pSpans ∧ LayoutBound c.nSpans
+  | [], s0, gs, _, hlb, _, s, h => by
+    simp [runSeries, pure, Except.pure] at h; subst h; exact hlb
+  | p :: ops, s0, gs, inv, hlb, hops, s, h => by
+    simp only [runSeries, List.foldlM_cons] at h
+    obtain ⟨s1, h1, h2⟩ := bind_ok _ _ _ h
+    cases ha : s0.append p.2 p.1.1 p.1.2 with
+    | error e => simp [ha, Except.map] at h1
+    | ok res =>
+      obtain ⟨s1', h', o⟩ := res
+      simp [ha, Except.map] at h1; subst h1
+      obtain ⟨hw, hbp, hbn⟩ := hops p (by simp)
+      obtain ⟨⟨gs1, inv1, _, _⟩, _, _⟩ := Series.append_inv s0 gs inv p.2 p.1.1 p.1.2 hw _ _ _ ha
+      have hl := Series.append_layouts s0 gs inv p.2 p.1.1 p.1.2 hw _ _ _ ha
+      have hlb1 : ∀ c ∈ s1'.cur.toList ++ s1'.done, LayoutBound c.pSpans ∧ LayoutBound c.nSpans := by
+        intro c hc
+        rcases hl c hc with hold | hf | ⟨c0, hc0, g0, _, sp, sn⟩
+        · exact hlb c hold
+        · rcases hf with ⟨e1, e2⟩ | ⟨e1, e2⟩
+          · rw [e1, e2]; exact ⟨hbp, hbn⟩
+          · rw [e1, e2]; exact ⟨LayoutBound.nil, LayoutBound.nil⟩
+        · exact ⟨(hlb c0 hc0).1.of_src hbp sp, (hlb c0 hc0).2.of_src hbn sn⟩
+      exact runSeries_layouts ops s1' gs1 inv1 hlb1 (fun q hq => hops q (by simp [hq])) s h2
+
+/-- **From appended histograms to bytes and back**, hypotheses on the inputs only. -/
+theorem series_bytes_roundtrip' (ops : List ((Int × Hist) × Bool)) (s : Series) (hwf : ∀ p ∈ ops, WFs p.1.2)
+    (hsm : ∀ p ∈ ops, SmallH p.1) (hrun : runSeries ops Series.empty = .ok s) :
+    ∀ c ∈ s.chunks, decodeChunk (encodeChunk c) = some c := by
+  intro c hc
+  have hc' : c ∈ s.cur.toList ++ s.done := by
+    have : c ∈ (s.cur.toList ++ s.done).reverse := hc
+    exact List.mem_reverse.1 this
+  have hlb := runSeries_layouts ops Series.empty [] trivial (by simp [Series.empty])
+    (fun p hp => ⟨hwf p hp, (hsm p hp).spans.1, (hsm p hp).spans.2⟩) s hrun c hc'
+  exact series_bytes_roundtrip ops s hwf hsm hrun c hc
+    ⟨hlb.1.1.1, hlb.2.1.1, hlb.1.1.2, hlb.2.1.2⟩
 
 end Prom.HistChunk
